@@ -64,8 +64,37 @@ class Partial(CallbackListener):
         self.count += 1
 
 
+class DeleteOnly(CallbackListener):
+    def __init__(self):
+        self.n = 0
+        super().__init__()
+
+    def dictionary_delete(self, element, key):
+        self.n += 1
+
+
+class PopOnly(CallbackListener):
+    def __init__(self):
+        self.n = 0
+        super().__init__()
+
+    def dictionary_pop(self, element, key):
+        self.n += 1
+
+
+class ConnectOnly(CallbackListener):
+    def __init__(self):
+        self.n = 0
+        super().__init__()
+
+    def wire_connect_pin(self, wire, pin):
+        self.n += 1
+
+
 class Shadow:
-    """Mirror kept from announcements only (identity-keyed, order-free)."""
+    """Mirror kept from announcements only (identity-keyed, order-free).  It merely replays: outer pins
+    appear/disappear with the inner pins of referenced definitions, but a CONNECTION only ever changes when
+    wire_connect_pin / wire_disconnect_pin says so."""
 
     def __init__(self):
         self.parent = {}        # id(child) -> parent object   (all seven containments share one map per child)
@@ -78,6 +107,7 @@ class Shadow:
         self.top = {}           # id(netlist) -> instance or None
         self.data = {}          # id(element) -> dict
         self.keep = []
+        self.repointed_insts = set()
 
     @staticmethod
     def key(pin):
@@ -105,7 +135,6 @@ class Shadow:
             for inst in self.insts_of.get(id(d), ()):
                 for q in self.pins_of.get(id(p), ()):
                     self.outer.setdefault(id(inst), set()).discard(id(q))
-                    self.wire_of.pop(("o", id(inst), id(q)), None)
         elif name == "port_add_pin":
             p, q = a
             self.parent[id(q)] = p
@@ -121,8 +150,6 @@ class Shadow:
                 self.pins_of[id(p)].remove(q)
             for s in self.outer.values():
                 s.discard(id(q))
-            for k in [k for k in self.wire_of if k[0] == "o" and k[2] == id(q)]:
-                del self.wire_of[k]
         elif name == "wire_connect_pin":
             self.wire_of[self.key_at_event] = a[0]
         elif name == "wire_disconnect_pin":
@@ -135,13 +162,12 @@ class Shadow:
                     self.insts_of.setdefault(id(old), set()).discard(inst)
                 self.ref[id(inst)] = None
                 self.outer[id(inst)] = set()
-                for k in [k for k in self.wire_of if k[0] == "o" and k[1] == id(inst)]:
-                    del self.wire_of[k]
             else:
                 if old is not None:
                     self.insts_of.setdefault(id(old), set()).discard(inst)
                     # positional re-keying, with the only order a listener has: the order of the announcements
                     self.repointed = True
+                    self.repointed_insts.add(id(inst))
                     oldp = [q for p in self.ports_of.get(id(old), ()) for q in self.pins_of.get(id(p), ())]
                     newp = [q for p in self.ports_of.get(id(d), ()) for q in self.pins_of.get(id(p), ())]
                     moved = {}
@@ -195,6 +221,8 @@ class Sink:
         if name in ("wire_connect_pin", "wire_disconnect_pin"):
             self.shadow.key_at_event = Shadow.key(a[1])
         self.shadow.apply(name, a)
+        if name in getattr(self, "counts", {}):
+            self.counts[name] += 1
         if self.recording:
             if name in ("wire_connect_pin", "wire_disconnect_pin") and isinstance(a[1], _OuterPinBase):
                 a = (a[0], ("outer", a[1].instance, a[1].inner_pin))      # who it denotes NOW (it may be detached later in the call)
@@ -296,6 +324,9 @@ def run_script(ops_or_len, rng, profile, drv, res, with_listeners=True, outcomes
     sink = Sink(world)
     rec = Recorder(sink) if with_listeners else None
     part = Partial() if with_listeners else None
+    singles = [DeleteOnly(), PopOnly(), ConnectOnly()] if with_listeners else []
+    hookcounts = {"dictionary_delete": 0, "dictionary_pop": 0, "wire_connect_pin": 0}
+    sink.counts = hookcounts
     drv.ask({"cmd": "reset"})
     findings = []
     gen = isinstance(ops_or_len, int)
@@ -390,7 +421,7 @@ def run_script(ops_or_len, rng, profile, drv, res, with_listeners=True, outcomes
                                  "impl": got_cmp, "model": exp_cmp})
             # ---- P: the shadow mirror (announcements only) equals the netlists
             for prob in shadow_problems(world, sink.shadow):
-                if sink.shadow.repointed and prob[0] == "connection":
+                if prob[0] == "connection" and len(prob) > 2 and prob[2] in sink.shadow.repointed_insts:
                     # positions / reorder assignments are not announced: after a re-pointing the listener cannot know
                     # which outer pin kept which wire (listed finding)
                     findings.append({"kind": "spec", "signature": "repoint.order_not_announced.mirror.connection", "step": k, "detail": prob[1], "soft": True})
@@ -406,6 +437,13 @@ def run_script(ops_or_len, rng, profile, drv, res, with_listeners=True, outcomes
         if rec is not None:
             rec.deregister_all_listeners()
             part.deregister_all_listeners()
+            for x in singles:
+                x.deregister_all_listeners()
+            got_n = [x.n for x in singles]
+            want_n = [hookcounts["dictionary_delete"], hookcounts["dictionary_pop"], hookcounts["wire_connect_pin"]]
+            if got_n != want_n and not findings:
+                findings.append({"kind": "spec", "signature": "listener_registration.single_hook_listener_missed_or_extra_calls", "step": len(script) - 1,
+                                 "detail": "listeners overriding exactly one hook (delete, pop, connect) were called %s times, the full recorder saw %s" % (got_n, want_n)})
     if outcomes is not None:
         outcomes.extend(outs)
     return findings, script, cur
@@ -443,7 +481,7 @@ def data_step(world, sink, drv, op, k, with_listeners):
     elif (out == "ok") != m["ok"] or got != exp:
         findings.append({"kind": "corr", "signature": "events.data.%s" % op["op"], "step": k, "detail": "data announcements/outcome differ", "impl": [out, got], "model": [m["ok"], exp]})
     for prob in shadow_problems(world, sink.shadow):
-        if sink.shadow.repointed and prob[0] == "connection":
+        if prob[0] == "connection" and len(prob) > 2 and prob[2] in sink.shadow.repointed_insts:
             findings.append({"kind": "spec", "signature": "repoint.order_not_announced.mirror.connection", "step": k, "detail": prob[1], "soft": True})
         else:
             findings.append({"kind": "spec", "signature": "data.%s.mirror.%s" % (op["op"], prob[0]), "step": k, "detail": prob[1]})
@@ -469,12 +507,12 @@ def shadow_problems(W, sh, limit=4):
             bad.append(("outer_pins", "instance %s" % il))
         for q, o in inst._pins.items():
             if sh.wire_of.get(("o", id(inst), id(q))) is not o._wire:
-                bad.append(("connection", "outer pin (%s,%s)" % (il, W.label(q))))
+                bad.append(("connection", "outer pin (%s,%s)" % (il, W.label(q)), id(inst)))
     for k, w in sh.wire_of.items():
         if k[0] == "o":
             inst = next((i for i in W.objs["instance"].values() if id(i) == k[1]), None)
             if inst is None or not any(id(q) == k[2] for q in inst._pins):
-                bad.append(("connection", "mirror keeps a connection of a dropped outer pin"))
+                bad.append(("connection", "mirror keeps a connection of a dropped outer pin", k[1]))
     for nl, n in W.objs["netlist"].items():
         if sh.top.get(id(n)) is not n._top_instance:
             bad.append(("top_instance", "netlist %s" % nl))
